@@ -8,6 +8,8 @@ CONSTANTS
     ColSets = {{"k"}}
     Kinds = {"time_course"}
     FailModes = {"intfail"}
+    Y0s = {0}
+    Y0Again = FALSE
     MaxDur = 1
     SharedInSeq = FALSE
     Timed = FALSE
